@@ -438,6 +438,14 @@ def main(argv=None):
         pu2, udesc2 = T.add_unused_macro(pm, rng.randrange(1000), rng, paste_existing=True)
         case["unused2"] = Job(i, "unused-macro-pasting", render(pu2, canon), {"desc": udesc2})
         jobs += [case["macperm"], case["unused"], case["unused2"]]
+        # C20: a fresh URL block that pastes a macro an existing URL block pastes
+        case["urlp"] = None
+        up = T.add_url_pasting(p0, rng.randrange(1000), rng)
+        if up is not None:
+            ub, ua, updesc, upadded, uptags = up
+            case["urlp"] = (Job(i, "url-pasting-base", render(ub, canon), {"desc": updesc}),
+                            Job(i, "url-pasting", render(ua, canon), {"desc": updesc, "added": upadded, "tags": uptags}))
+            jobs += list(case["urlp"])
         # C11: faults
         case["faults"] = []
         tries = 0
@@ -561,6 +569,18 @@ def main(argv=None):
                          case["mac"], case["mac2"], m, case["mac2"].meta["desc"] + "\nplan " + json.dumps(case["mac2"].meta["plan"].to_json()))
         compare_pair(rep, "C07/C20", "unused macro", seed, j0, case["unused"], m, case["unused"].meta["desc"])
         compare_pair(rep, "C07/C20", "unused macro that pastes an existing macro twice", seed, case["mac"], case["unused2"], m, case["unused2"].meta["desc"])
+        if case.get("urlp") is not None:
+            ub, ua = case["urlp"]
+            rep.counts["C20 fresh URL blocks pasting an existing macro"] += 1
+            if compare_pair(rep, "C07", "methods of a URL block moved into a macro", seed, j0, ub, m, ua.meta["desc"]) and ub.status == "ok":
+                if ua.status != "ok":
+                    rep.add("C20", "adding a fresh declaration changes the verdict", seed, ua.meta["desc"] + "\n" + ua.err(), ua.text())
+                else:
+                    ds = entry_diffs(rep, "C20", m, ub.json, ua.json, extra_in_b=ua.meta["added"], ignore_tags=ua.meta["tags"])
+                    missing = [k for k in ua.meta["added"]["interactions"] if k not in E.order_of(ua.json)["interactions"]]
+                    if ds or missing:
+                        rep.add("C20", "a fresh URL block changes another entry (%s)" % "; ".join(x for x in [diff_label(ds), "missing" if missing else ""] if x),
+                                seed, ua.meta["desc"] + "\n" + "\n".join([x["text"] for x in ds[:4]] + ["missing: %s" % missing] * bool(missing)), ua.text())
         jq = case["macperm"]
         if jq.status != case["mac"].status:
             rep.add("C10", "permuting the top level of a macro-ized document changes the verdict", seed,
